@@ -74,7 +74,7 @@ theorem rpm_tamper_evident (H : Nat → Bytes → Bytes) (pgp : Bytes → Res Si
       ∃ hs ps, collect pgp sig.ents g.orig [tagRSA, tagDSA] = .ok hs ∧ collect pgp sig.ents (g.orig ++ pl) [tagPGP, tagGPG] = .ok ps ∧
         validateAll valid (some ks) (hs ++ ps) = .ok () := by
     intro g pl v h
-    unfold verifyCore libVerifyCore at h
+    unfold verifyCore verifyCoreWith libVerifyCore at h
     split at h
     · rename_i sigs hl
       split at hl
@@ -118,18 +118,21 @@ example : ∀ (b s s' : Bytes), (b == s) = true → (b == s') = true → s = s' 
 theorem rpm_lead_unprotected (H : Nat → Bytes → Bytes) (pgp : Bytes → Res SigInfo) (valid : Bytes → Bytes → Bool) (known : Option (List Nat))
     (nc : Bool) (f f' : Bytes) (hl : 96 ≤ f.length) (hl' : 96 ≤ f'.length) (hm : f'.take 4 = f.take 4) (hb : f'.drop 96 = f.drop 96) :
     verify H pgp valid known nc f' = verify H pgp valid known nc f := by
-  unfold verify readBoth
-  have a : ¬ f.length < 96 := by omega
-  have a' : ¬ f'.length < 96 := by omega
-  simp only [a, a', if_false, hm, hb]
-  by_cases hmg : beVal (f.take 4) ≠ magicLead
-  · rw [if_pos hmg, if_pos hmg]
-  · rw [if_neg hmg, if_neg hmg]
-    cases readBody H (f.drop 96) with
-    | ok x => obtain ⟨s, g, p⟩ := x; rfl
-    | err _ => rfl
-    | panic _ => rfl
-    | diverge => rfl
+  have key : verifyWith nevraOf H pgp valid known nc f' = verifyWith nevraOf H pgp valid known nc f := by
+    unfold verifyWith readBoth
+    have a : ¬ f.length < 96 := by omega
+    have a' : ¬ f'.length < 96 := by omega
+    simp only [a, a', if_false, hm, hb]
+    by_cases hmg : beVal (f.take 4) ≠ magicLead
+    · rw [if_pos hmg, if_pos hmg]
+    · rw [if_neg hmg, if_neg hmg]
+      cases readBody H (f.drop 96) with
+      | ok x => obtain ⟨s, g, p⟩ := x; rfl
+      | err _ => rfl
+      | panic _ => rfl
+      | diverge => rfl
+  unfold verify
+  rw [key]
 
 /-- **rpm_header_only_payload_unprotected** (stated gap).  Under a header-only signature (slot 268 / 267 alone) and a general
     header without PAYLOADDIGEST, the payload is compared with the legacy MD5 of the UNSIGNED signature header only: whoever
